@@ -7,16 +7,17 @@ properties, undo the patch straight afterwards (always), and print one line per 
 """
 import sys, os, subprocess, shutil, tempfile
 VERIF = os.path.dirname(os.path.dirname(os.path.abspath(__file__)))
+REPO = os.environ.get("VERIF_REPO", "/repo")
 def main():
     patch = os.path.abspath(sys.argv[1]); props = sys.argv[2:]
     if props == ["--all"]: props = [f"C{i:02d}" for i in range(1, 21)]
-    st = subprocess.run(["git", "-C", "/repo", "status", "--porcelain", "--untracked-files=no"], capture_output=True, text=True).stdout
+    st = subprocess.run(["git", "-C", REPO, "status", "--porcelain", "--untracked-files=no"], capture_output=True, text=True).stdout
     if st.strip():
         print("refusing: /repo has uncommitted changes"); return 2
     keep = tempfile.mkdtemp(prefix="ev-keep-")
     ev = os.path.join(VERIF, "evidence")
     if os.path.isdir(ev): shutil.copytree(ev, os.path.join(keep, "evidence"))
-    r = subprocess.run(["git", "-C", "/repo", "apply", patch], capture_output=True, text=True)
+    r = subprocess.run(["git", "-C", REPO, "apply", patch], capture_output=True, text=True)
     if r.returncode != 0:
         print("patch does not apply:", r.stderr.strip()); return 2
     try:
@@ -34,7 +35,7 @@ def main():
                 except Exception: pass
             print(f"{p} rc={out.returncode} {tail}{detail}", flush=True)
     finally:
-        subprocess.run(["git", "-C", "/repo", "checkout", "--", "."])
+        subprocess.run(["git", "-C", REPO, "checkout", "--", "."])
         if os.path.isdir(os.path.join(keep, "evidence")):
             shutil.rmtree(ev, ignore_errors=True); shutil.copytree(os.path.join(keep, "evidence"), ev)
         shutil.rmtree(keep, ignore_errors=True)
